@@ -340,3 +340,12 @@ package common
 //@   inline
 //@ func (*ZeroCopySource).Size
 //@   inline
+
+// transaction root of a hash list (the Bitcoin-style double-SHA-256 binary Merkle root; C03 is the property
+// that ComputeMerkleRoot computes it): named here so that C02 can say which list the header's root is compared with
+//@ uf txRootOf(a ArrU64B256, off uint64, n int) [32]byte
+
+//@ func ComputeMerkleRoot
+//@   trusted   -- provisional (C03): uses the argument as workspace
+//@   modifies elems(hashes)
+//@   ensures result == txRootOf(old(arr(hashes)), off(hashes), len(hashes))
